@@ -41,13 +41,14 @@ const (
 	kUpDownI
 	kHistI
 	kGaugeI
+	kHistExpF
 	kObsCounter
 	kObsUpDown
 	kObsGauge
 )
 
 func (k instKind) String() string {
-	return [...]string{"counter_i", "counter_f", "updown_i", "hist_i", "gauge_i", "obs_counter", "obs_updown", "obs_gauge"}[k]
+	return [...]string{"counter_i", "counter_f", "updown_i", "hist_i", "gauge_i", "hist_exp", "obs_counter", "obs_updown", "obs_gauge"}[k]
 }
 
 func (k instKind) isSum() bool   { return k == kCounterI || k == kCounterF || k == kUpDownI }
@@ -120,6 +121,7 @@ type recOp struct {
 	bit      int  // value = 2^bit (up-down negatives: -(2^(30+bit)))
 	neg      bool // up-down counter subtraction
 	gaugeVal int64
+	fval     float64 // exponential histogram measurement
 	task     string
 	inv, ret uint64
 	sleep    time.Duration
@@ -153,6 +155,11 @@ type point struct {
 	temporal string
 	mono     bool
 	kind     string // sum | hist | gauge | exphist
+	scale    int32
+	posOff   int32
+	pos      []uint64
+	negN     uint64
+	zero     uint64
 }
 
 type collection struct {
@@ -268,6 +275,21 @@ func extract(rm *metricdata.ResourceMetrics) map[string]map[string]point {
 					}
 					put(setKeyOf(dp.Attributes), p)
 				}
+			case metricdata.ExponentialHistogram[float64]:
+				for _, dp := range d.DataPoints {
+					p := point{kind: "exphist", sum: dp.Sum, count: dp.Count, scale: dp.Scale, zero: dp.ZeroCount, posOff: dp.PositiveBucket.Offset,
+						pos: append([]uint64{}, dp.PositiveBucket.Counts...), start: dp.StartTime, time: dp.Time, temporal: d.Temporality.String()}
+					for _, c := range dp.NegativeBucket.Counts {
+						p.negN += c
+					}
+					if v, ok := dp.Min.Value(); ok {
+						p.min, p.hasMin = v, true
+					}
+					if v, ok := dp.Max.Value(); ok {
+						p.max = v
+					}
+					put(setKeyOf(dp.Attributes), p)
+				}
 			default:
 				put("?unsupported", point{kind: fmt.Sprintf("%T", d)})
 			}
@@ -292,7 +314,9 @@ func summarize(d map[string]map[string]point) string {
 		fmt.Fprintf(&b, "%s{", n)
 		for _, k := range ks {
 			p := d[n][k]
-			if p.kind == "hist" {
+			if p.kind == "exphist" {
+				fmt.Fprintf(&b, "[%s]:n=%d,sum=%v,scale=%d,off=%d,pos=%v ", k, p.count, p.sum, p.scale, p.posOff, p.pos)
+			} else if p.kind == "hist" {
 				fmt.Fprintf(&b, "[%s]:n=%d,sum=%d ", k, p.count, p.ival)
 			} else {
 				fmt.Fprintf(&b, "[%s]:%d ", k, p.ival)
@@ -338,7 +362,9 @@ func (engine) Body(r *simdrv.Run) {
 	w.bounds = []float64{1, 4, 16, 256, 65536}
 
 	// instruments
-	kinds := []instKind{kCounterI, kCounterF, kUpDownI, kHistI, kGaugeI, kObsCounter, kObsUpDown, kObsGauge}
+	kinds := []instKind{kCounterI, kCounterF, kUpDownI, kHistI, kGaugeI, kHistExpF, kObsCounter, kObsUpDown, kObsGauge}
+	expMaxSize := []int32{4, 4, 8, 160}[r.Cfg(4)]
+	expMaxScale := []int32{0, 3, 20}[r.Cfg(3)]
 	for i, k := range kinds {
 		in := &inst{idx: i, kind: k, name: k.String()}
 		in.streams = []stream{{name: in.name}}
@@ -354,7 +380,7 @@ func (engine) Body(r *simdrv.Run) {
 		}
 		w.insts = append(w.insts, in)
 	}
-	syncInsts := []int{0, 1, 2, 3, 4}
+	syncInsts := []int{0, 1, 2, 3, 4, 5, 5}
 	// recorder plans
 	nRec := 1 + r.Cfg(4)
 	recPlans := make([][]*recOp, nRec)
@@ -373,6 +399,14 @@ func (engine) Body(r *simdrv.Run) {
 			}
 			if in.kind == kGaugeI {
 				op.gaugeVal = int64(1000*(t+1) + i)
+			}
+			if in.kind == kHistExpF {
+				// values spread over a wide and jumpy range, so that points fill, downscale and regrow
+				e := []int{0, 1, 2, 3, 7, -4, 11, 5, -9, 16}[r.Cfg(10)]
+				op.fval = []float64{1, 1.5, 1.25}[r.Cfg(3)] * math.Pow(2, float64(e))
+				if r.Cfg(12) == 0 {
+					op.fval = 0
+				}
 			}
 			if r.Cfg(5) == 0 {
 				op.sleep = times[r.Cfg(len(times))]
@@ -404,9 +438,10 @@ func (engine) Body(r *simdrv.Run) {
 	if r.Cfg(2) == 1 {
 		n := 1 + r.Cfg(4)
 		for i := 0; i < n; i++ {
-			regPlan = append(regPlan, regOp{inst: 5 + r.Cfg(3), on: r.Cfg(2) == 1, sleep: times[r.Cfg(len(times))]})
+			regPlan = append(regPlan, regOp{inst: 6 + r.Cfg(3), on: r.Cfg(2) == 1, sleep: times[r.Cfg(len(times))]})
 		}
 	}
+	r.Res.Config["exp_hist"] = fmt.Sprintf("max_size=%d max_scale=%d", expMaxSize, expMaxScale)
 	r.Res.Config["limit"] = w.limit
 	r.Res.Config["view_mode"] = viewMode
 	r.Res.Config["periodic"] = fmt.Sprintf("%v interval=%v timeout=%v temporality=%v", usePeriodic, w.interval, perTimeout, w.perTemp)
@@ -453,6 +488,8 @@ func (engine) Body(r *simdrv.Run) {
 			sdkmetric.NewView(sdkmetric.Instrument{Name: "updown_i"}, sdkmetric.Stream{Name: "updown_by_a", AttributeFilter: keepA}),
 			sdkmetric.NewView(sdkmetric.Instrument{Name: "updown_i"}, sdkmetric.Stream{Name: "updown_all"})))
 	}
+	opts = append(opts, sdkmetric.WithView(sdkmetric.NewView(sdkmetric.Instrument{Name: "hist_exp"},
+		sdkmetric.Stream{Aggregation: sdkmetric.AggregationBase2ExponentialHistogram{MaxSize: expMaxSize, MaxScale: expMaxScale}})))
 	mp := sdkmetric.NewMeterProvider(opts...)
 	meter := mp.Meter("metricsim")
 	ci, _ := meter.Int64Counter("counter_i")
@@ -460,10 +497,11 @@ func (engine) Body(r *simdrv.Run) {
 	ui, _ := meter.Int64UpDownCounter("updown_i")
 	hi, _ := meter.Int64Histogram("hist_i", metric.WithExplicitBucketBoundaries(w.bounds...))
 	gi, _ := meter.Int64Gauge("gauge_i")
+	he, _ := meter.Float64Histogram("hist_exp")
 	oc, _ := meter.Int64ObservableCounter("obs_counter")
 	ou, _ := meter.Int64ObservableUpDownCounter("obs_updown")
 	og, _ := meter.Int64ObservableGauge("obs_gauge")
-	obsInst := map[int]metric.Int64Observable{5: oc, 6: ou, 7: og}
+	obsInst := map[int]metric.Int64Observable{6: oc, 7: ou, 8: og}
 	regHandles := map[int]metric.Registration{}
 
 	// one callback per async instrument; it records what it observes into the collecting task's record
@@ -498,7 +536,7 @@ func (engine) Body(r *simdrv.Run) {
 		}
 	}
 	// initial registrations (drawn), done before the tasks start
-	for idx := 5; idx <= 7; idx++ {
+	for idx := 6; idx <= 8; idx++ {
 		if r.Cfg(3) != 0 {
 			register(idx)
 			w.regs[idx] = true
@@ -520,6 +558,8 @@ func (engine) Body(r *simdrv.Run) {
 			hi.Record(ctx, op.value(), attrs)
 		case kGaugeI:
 			gi.Record(ctx, op.gaugeVal, attrs)
+		case kHistExpF:
+			he.Record(ctx, op.fval, attrs)
 		}
 	}
 	for t, plan := range recPlans {
@@ -532,7 +572,7 @@ func (engine) Body(r *simdrv.Run) {
 				simrt.Yield(simdrv.PtOp)
 				simrt.RWRLock(&w.gate, simdrv.PtStub)
 				op.inv = sim.Stamp()
-				r.Log("%d rec-invoke %s %s set=[%s] bit=%d neg=%v gauge=%d", op.inv, op.task, w.insts[op.inst].name, op.set.key(nil), op.bit, op.neg, op.gaugeVal)
+				r.Log("%d rec-invoke %s %s set=[%s] bit=%d neg=%v gauge=%d f=%v", op.inv, op.task, w.insts[op.inst].name, op.set.key(nil), op.bit, op.neg, op.gaugeVal, op.fval)
 				record(op)
 				op.ret = sim.Stamp()
 				r.Log("%d rec-return %s", op.ret, op.task)
